@@ -25,10 +25,41 @@ class Defn:
         return (self.kind, self.text if self.kind == "desc" else self.g.key(), self.strict)
 
 
+def big_definitions(rng):
+    """good definitions whose storage outgrows the initial segments of the grammar's object stacks: a rule with a
+    very long right hand side, and symbol / node names longer than a segment"""
+    from . import c12
+    from .gram import Grammar, Rule
+    out = []
+    k = rng.choice([70, 120, 200])
+    out.append(c12.chain_grammar(rng, k, lambda i: 1000 + i))
+    g0 = gen.pool()[rng.randrange(len(gen.pool()))][1]
+    m = {}
+
+    def nm(x):
+        if x == "error":
+            return x
+        if x not in m:
+            m[x] = "%s_%s" % (x.strip("'") if x.strip("'").isalnum() else "q%d" % len(m), "z" * rng.choice([30, 520, 700, 1500]))
+        return m[x]
+    out.append(Grammar([(nm(n), c) for n, c in g0.terms],
+                       [Rule(nm(r.lhs), [nm(x) for x in r.rhs], None if r.anode is None else r.anode + "w" * rng.choice([5, 600]),
+                             r.cost, r.transl) for r in g0.rules]))
+    return out
+
+
 def defn_pool(rng, n_good=10, n_bad=8):
     out = []
     pool = gen.pool()
     did = 0
+    for g in big_definitions(rng):
+        strict = 1 if not oracle.wf(g, 1) else 0
+        if oracle.wf(g, strict):
+            continue
+        d = Defn(did, "read", g, None, strict)
+        d.good = True
+        out.append(d)
+        did += 1
     while len([d for d in out if d.good]) < n_good:
         if rng.random() < 0.6:
             nm, g = pool[rng.randrange(len(pool))]
